@@ -70,6 +70,16 @@ class Registry(object):
     def __init__(self):
         self.contracts = OrderedDict()
         self.lemmas = OrderedDict()
+        self.predicates = OrderedDict()
+
+    def define(self, name, params, body, note=''):
+        """Opaque spec predicate: `name(args)` denotes an uninterpreted boolean function of the VALUES of its arguments (an int, a
+        bool, an Int->Int array, or -- for a list -- its element array and its length); every evaluation also asserts the
+        ground instance `name(args) == body[args]` of its definition.  The body is evaluated over a scratch heap that holds
+        nothing but the list arguments, so it is a function of the arguments alone.  Proofs that only need `nothing the predicate
+        depends on has changed` go through by congruence without opening the quantifiers inside the body."""
+        assert name not in self.predicates, 'duplicate predicate ' + name
+        self.predicates[name] = (OrderedDict(params), body, note)
 
     def add(self, c):
         assert c.name not in self.contracts, 'duplicate contract ' + c.name
